@@ -111,14 +111,14 @@ def run_case(case, rec):
 
 
 # --------------------------------------------------------------------------------------------------------------
-def _cmp(rec, case, stage, T, ref, out, kind, floor=None):
+def _cmp(rec, case, stage, T, ref, out, kind, floor=None, absfloor=1e-12):
     """Compare a dict of named arrays with the reference dict.  `floor` (e2e stage only): per-output response of the
     1-thread result to a 1-ulp change of the density matrix, see _sweep."""
     for name, a in out.items():
         b = ref[name]
         a = np.asarray(a, dtype=float)
         b = np.asarray(b, dtype=float)
-        sc = max(float(np.max(np.abs(b))) if b.size else 0.0, 1e-12)
+        sc = max(float(np.max(np.abs(b))) if b.size else 0.0, absfloor)
         d = float(np.max(np.abs(a - b))) / sc if b.size else 0.0
         if not np.all(np.isfinite(a)):
             d = float("nan")
@@ -268,6 +268,14 @@ def _sweep(case, rec, rng):
         sc = max(float(np.max(np.abs(a0))), 1e-12)
         floor[name] = float(np.max(np.abs(np.asarray(b, dtype=float) - a0))) / sc
     rec.note("e2e_ulp_response", floor)
+    # force-like outputs vanish by symmetry for one-atom systems (pure rounding noise, 1e-18): their scale is at least
+    # 1e-3 of the XC matrix of the same calculation
+    gfloor = 1e-3 * max(float(np.max(np.abs(np.asarray(ref["e2e"]["vmat"], dtype=float)))), 1e-9)
+    rec.note("grad_stage_scale_floor", gfloor)
+
+    def cmp(st, T, r, o, kind):
+        _cmp(rec, case, st, T, r, o, kind, floor=floor if st == "e2e" else None, absfloor=gfloor if st == "grad" else 1e-12)
+
     calls_before = dict(boot.counters())
     teams = case["teams"]
     for T in teams:
@@ -275,16 +283,12 @@ def _sweep(case, rec, rng):
             set_threads(T)
             out = _stage_outputs(gen, ks, dm, nspin, model, state, inp)
             if repeat == 0:
-                if T == 1:
-                    for st in out:
-                        _cmp(rec, case, st, T, ref[st], out[st], "repeat")
-                else:
-                    for st in out:
-                        _cmp(rec, case, st, T, ref[st], out[st], "team", floor=floor if st == "e2e" else None)
+                for st in out:
+                    cmp(st, T, ref[st], out[st], "repeat" if T == 1 else "team")
                 first = out
             else:
                 for st in out:
-                    _cmp(rec, case, st, T, first[st], out[st], "repeat")
+                    cmp(st, T, first[st], out[st], "repeat")
         rec.tag("team_size", T)
     # cheap stages at further (non power-of-two) team sizes
     set_threads(1)
